@@ -86,14 +86,16 @@ def encModelF (Γ : Ctx) (fac : Factory) (cfg : SerCfg) : Nat → Val → Except
     | some (c, fs) => encObjWith Γ fac cfg (encModelF Γ fac cfg n) c fs
     | none => .error (.context "not a dataclass")   -- `context.build(obj.__class__)` of a non-model
 
+/-- one item of a list document: `self.encode(item)` with no var -/
+def encTopItem (Γ : Ctx) (fac : Factory) (cfg : SerCfg) (fuel : Nat) : Val → Except Err J
+  | .none => .ok .null
+  | .list _ => .error (.unsupported "nested top-level list")
+  | x => encModelF Γ fac cfg fuel x
+
 /-- `DictEncoder.encode(value)` (no var): `None`, a list of model instances, or a model instance -/
 def encode (Γ : Ctx) (fac : Factory) (cfg : SerCfg) (fuel : Nat) : Val → Except Err J
   | .none => .ok .null
-  | .list xs =>
-    (xs.mapM fun (x : Val) => match x with
-      | Val.none => Except.ok J.null
-      | Val.list _ => Except.error (Err.unsupported "nested top-level list")
-      | x => encModelF Γ fac cfg fuel x).map J.arr
+  | .list xs => (xs.mapM (encTopItem Γ fac cfg fuel)).map J.arr
   | v => encModelF Γ fac cfg fuel v
 
 /-! ### JSON text -/
